@@ -13,8 +13,6 @@ Two parts (DESIGN 3, C15):
 
 import itertools
 
-import numpy as np
-
 from vlib import e1
 from vlib.senv import ScriptEnv
 
@@ -104,7 +102,8 @@ class WindowMachine:
             self.switches += 1
             switched = True
             self.window = self.long_window
-            self.best = self.best * self.weight
+            if self.best is not None:
+                self.best = self.best * self.weight
         self.open = []
         return complete, released, ("complete" if complete else "cut"), switched
 
